@@ -141,8 +141,10 @@ pub fn c13(tier: Tier) -> i32 {
         let fams = crate::c_inputs::families(format, if tier == Tier::Quick { Tier::Quick } else { Tier::Thorough });
         for fam in fams.iter() {
             // quick: class strings one shorter than C01/C02 (three ways of obtaining each record)
+            // class strings one (thorough: two) shorter than C01/C02: three ways of obtaining each record,
+            // two instantiations of the data class
             let count = match fam {
-                crate::c_inputs::Family::Class { format, maxlen } if tier == Tier::Quick => class_count(*format, maxlen - 1),
+                crate::c_inputs::Family::Class { format, maxlen } => class_count(*format, maxlen - if tier == Tier::Quick { 1 } else { 2 }),
                 f => f.count(),
             };
             names.push(fam.name());
